@@ -595,6 +595,13 @@ var l2Exceptions = map[string]string{
 	"(*client.ovsdbClient).handleDisconnectNotification|client.ovsdbClient.rpcClient": "first statement of the goroutine started by connect(): rpcClient can only be rewritten by a later connect, which requires this goroutine to have set it to nil first",
 }
 
+// l2ExceptionRequires: the lock (pkg, type, field) that must be held exclusively
+// at the access for the exception of the same key to apply.
+var l2ExceptionRequires = map[string][3]string{
+	"(*cache.TableCache).Populate|cache.RowCache.cache":  {"cache", "TableCache", "mutex"},
+	"(*cache.TableCache).Populate2|cache.RowCache.cache": {"cache", "TableCache", "mutex"},
+}
+
 type access struct {
 	fn    *ssa.Function
 	instr ssa.Instruction
@@ -811,6 +818,17 @@ func ruleL2(id string, pkgs ...string) func(p *Program, r *Reporter) {
 			ok, why := la.heldAt(a.fn, a.instr, guardOf[a.field], a.write, map[*ssa.Function]bool{}, 0)
 			if !ok && !a.write {
 				if ex, isEx := l2Exceptions[fname+"|"+lockClassName(a.field)]; isEx {
+					// an exception that rests on another lock being held exclusively is only
+					// as good as that lock: check it at this very access
+					if req, has := l2ExceptionRequires[fname+"|"+lockClassName(a.field)]; has {
+						rl := p.Field(req[0], req[1], req[2])
+						st := la.facts[a.fn].before[a.instr]
+						if rl == nil || st == nil || !st.mustHeld(lockKey{rl, 'W'}) {
+							r.Ob(id, fname, construct, a.instr.Pos(), false, true,
+								"read of "+lockClassName(a.field)+" without its own lock is only safe while "+req[0]+"."+req[1]+"."+req[2]+" is held exclusively, which is not the case here (shared or not held): concurrent calls interleave their read-modify-write of the same row")
+							continue
+						}
+					}
 					r.Ob(id, fname, construct, a.instr.Pos(), true, false, "exception (read, one named function): "+ex)
 					continue
 				}
